@@ -15,7 +15,7 @@ from typing import List
 from ..engine import Analysis, describe_path
 from ..frontend import AnalysisError, unparse
 from ..report import RuleResult
-from ..values import BoundV, Const, Sym, V
+from ..values import BoundV, Const, Sym, Unknown, V
 from . import common, pathsum
 
 PROP = "C14"
@@ -52,7 +52,11 @@ def alert_root(analysis: Analysis, spec) -> dict:
     ctx = analysis.context(*spec)
     it = analysis.new_interp(ctx)
     st, gw = analysis.gateway_state(it)
-    outs = analysis.run_root(it, "__init__:Gateway.alert", [Sym(("root", "msg"), ("cls", "message:Message"))], gw, st)
+    # alert() is analysed for every argument a caller could pass: further parameters (a "changed" switch ...) are
+    # arbitrary here, so a path on which they turn the dirty flag off is found
+    info = analysis.p.func("__init__:Gateway.alert")
+    extra = [Unknown(label=f"alert.{a.arg}") for a in info.node.args.args[2:]]
+    outs = analysis.run_root(it, "__init__:Gateway.alert", [Sym(("root", "msg"), ("cls", "message:Message"))] + extra, gw, st)
     rows = []
     pkey = ("attr", ("attr", ("root", "GW"), "tasks"), "persistence")
     for out in outs:
@@ -214,6 +218,9 @@ def run(analysis: Analysis, tier: str) -> RuleResult:
         raise AnalysisError(f"C14-R1: only {n} mutating paths found (expected at least 20)")
     alert_and_stop(analysis, res)
     pump_stops(analysis, res, "C14-R2")
+    from . import c07
+
+    c07.hold_queue_plain(analysis, res, "C14-R2")
     flag_writers(analysis, res)
     res.assumptions = ["persisted projection = keys of the JSON encoder's dict literals + insertions into the node/child maps", "external raise model sa/extmodel.py"]
     res.not_decided = ["the cross-thread window between the end of serialisation and the flag store"]
